@@ -30,7 +30,7 @@ import (
 )
 
 func init() {
-	register(&Scenario{Name: "lbmix", Props: []string{"C12"}, Kind: "micro", Run: runLBMix})
+	register(&Scenario{Name: "lbmix", Props: []string{"C12", "C03"}, Kind: "micro", Run: runLBMix})
 }
 
 func runLBMix(x *X) {
@@ -62,8 +62,13 @@ func runLBMix(x *X) {
 	for i := 0; i < nb; i++ {
 		o.backends = append(o.backends, config.BackendConfig{Name: fmt.Sprintf("b%d", i), Address: "http://" + hostOf(i), Weight: 1 + c.Intn(3, "w")})
 	}
+	faultsInjected := 0
 	onErr := func(e *simrt.SchedError) {
 		x.Violate("C12", "C12/"+e.Kind+"{"+strings.Join(e.Sites, "+")+"}", "%s", e.Error())
+		if faultsInjected > 0 && e.Kind != "step-budget" {
+			// C03: no sequence of backend faults may deadlock or wedge the proxy
+			x.Violate("C03", "C03/"+e.Kind+"{"+strings.Join(e.Sites, "+")+"}", "after %d injected backend faults: %s", faultsInjected, e.Error())
+		}
 	}
 	simrt.WGMisuse = func(site string) {
 		x.Violate("C12", "C12/waitgroup-misuse{"+site+"}", "WaitGroup.Add at %s races with a Wait that found the counter at zero (sync.WaitGroup panics: reused before previous Wait has returned)", site)
@@ -120,6 +125,7 @@ func runLBMix(x *X) {
 				}
 				if p.mode != "ok" {
 					x.Fault("backend-" + p.mode)
+					faultsInjected++
 				}
 				plans = append(plans, p)
 			}
@@ -205,6 +211,39 @@ func runLBMix(x *X) {
 		if r+1 < rounds && !x.dead {
 			// let windows elapse / probes tick / breaker time out between bursts
 			x.Advance(time.Duration(c.Intn(3500, "gap-ms"))*time.Millisecond, onErr)
+		}
+	}
+	// ---- C03: once the faults stop, a request to a healthy backend succeeds normally ------
+	if !x.dead && faultsInjected > 0 {
+		net.mu.Lock()
+		for _, b := range net.order {
+			b.mode, b.probeMode, b.delay = "ok", "ok", 0
+		}
+		net.mu.Unlock()
+		// the admin tasks may have removed every backend: make sure a healthy one exists
+		x.Do("recov-add", func() {
+			admin("POST", "/v1/backends/add", map[string]any{"name": "recov", "address": "http://" + hostOf(5), "weight": 1})
+		}, onErr)
+		wait := time.Duration(o.window)*time.Second + 3*time.Second
+		x.Advance(wait, onErr)
+		var statuses []int
+		ok := false
+		for j := 0; j < 8 && !x.dead && !ok; j++ {
+			var r simResult
+			x.Do("recovery", func() { r = h.do(reqSpec{client: "192.0.2.200", path: "/recovery"}) }, onErr)
+			statuses = append(statuses, r.status)
+			if r.status == 200 {
+				ok = true
+				break
+			}
+			x.Advance(2100*time.Millisecond, onErr)
+		}
+		if !x.dead {
+			if ok {
+				x.Probe("recovered-after-faults")
+			} else {
+				x.Violate("C03", "C03/no-recovery{micro}", "after %d backend faults stopped and %v passed, 8 requests (2.1 s apart) to healthy backends were answered %v", faultsInjected, wait, statuses)
+			}
 		}
 	}
 	if !x.dead && stopRound < 0 {
